@@ -232,8 +232,8 @@ def monitor(case, tr, raw):
         return "implementation produced no trace: %s" % (raw or "")[:80]
     if (raw or "").strip() == "-1":
         return None
-    aux = [e for e in tr if e[2] == 929]
-    tr = [e for e in tr if e[2] != 929]
+    aux = [e for e in tr if e[2] == 979]
+    tr = [e for e in tr if e[2] != 979]
     res = analyse(case, tr)
     # "memory and stack are reclaimed exactly once": fiber_destroy releases the stack (fiber_context_destroy), the
     # fiber's queue node and the control block; the first two are monitor-only observations of the T1 machine
